@@ -248,10 +248,22 @@ fn node_scenario(a: &[&str]) -> String {
                         }
                         data[pos] ^= 1 << num::<u32>(p[5]);
                     }
+                    // A truncation of a genuine HANDSHAKE datagram that removes only 0x00 bytes is seen by the handshake parser
+                    // as the complete message again (it is handed MsgBuffer::buffer(), and the fresh receive buffer is zero
+                    // filled behind the message: finding F11).  The harness says so ("zc~" prefix) because only it has the
+                    // real bytes; for the model such an op is the verbatim injection of datagram k.
+                    let mut zero_completed = false;
                     if p[0] == "U" {
-                        data.truncate(num(p[4]));
+                        let cut: usize = num(p[4]);
+                        zero_completed = !data.is_empty() && data[0] == 0xff && cut > 0 && cut < data.len() && data[cut..].iter().all(|b| *b == 0);
+                        data.truncate(cut);
                     }
-                    w.deliver(num(p[2]), num(p[3]), data)
+                    let r = w.deliver(num(p[2]), num(p[3]), data);
+                    if zero_completed {
+                        format!("zc~{}", r)
+                    } else {
+                        r
+                    }
                 }
                 "W" => w.deliver(num(p[1]), num(p[2]), unhex(p[3])),
                 "L" => {
